@@ -22,6 +22,19 @@ import numpy as np
 
 ID = 'C18'
 
+def nmax(a):
+    """max() of an array of differences; a NaN anywhere counts as an infinite difference"""
+    import numpy as _np
+    a = _np.asarray(a, dtype=float)
+    return float('inf') if a.size and bool(_np.isnan(a).any()) else (float(a.max()) if a.size else 0.0)
+
+
+def nabs(x):
+    """abs() for tolerance tests: a NaN counts as an infinite difference (a result that is not a number equals nothing)"""
+    x = abs(x)
+    return float('inf') if x != x else x
+
+
 MANIFEST = dict(
     technique='explicit-state enumeration of a synthetic detection-map lattice (ridge geometry x heights x end-point responses x down-sampling) on the real LayoutEngine.parse, and of rotation x page shape x ridge sets on the real LayoutEngine.detect with a stub network; geometric oracle + rotation differential',
     text='Bounded exhaustive: every single ridge of the lattice (4 rows x 2 offsets x 4 lengths x 3 slopes x 3 thicknesses x 3 height pairs x end-point responses on/off) x 4 down-sampling factors, every ordered pair / triple of ridges over an 8-variant alphabet, and two ridges sharing a row; decoding must return exactly one line per ridge with end points within 3 map px, rows within (1 + thickness/2) map px, heights equal to the map values times the factor, and the outline of baseline_to_textline. For rotations 0-3 on non-square and square pages, detect(image, rot) must agree within 1 px with the exact inverse rotation of the layout decoded from the rotated image (regions, baselines, outlines). Added sub-sweeps: two ridges starting on the same row, an independent reference of the outline, histories of pages of different print sizes through the real adaptive down-sampling logic (adaptive on/off x pixel budget exceeded or not), non-default engine options, and maps with 130-300 ridges. Orientation sequences (1,3 / 3,1 / 0,2 / 2,0 / 0,1,3) of one page on ONE engine through the real TorchParseNet.get_maps (image-encoded maps); different print sizes at the two map borders.',
@@ -238,23 +251,23 @@ def check_lines(b_list, h_list, t_list, ridges, ds, ctx, K, desc, case):
         b, h, t = np.asarray(b_list[i], dtype=float), h_list[i], np.asarray(t_list[i], dtype=float)
         y_at = lambda x: g['row'] + g['slope'] * (x - g['x0'])
         tol_y = (1.0 + g['thick'] / 2.0) * ds
-        if abs(b[0, 0] - ds * g['x0']) > 3 * ds or abs(b[-1, 0] - ds * g['x1']) > 3 * ds:
+        if nabs(b[0, 0] - ds * g['x0']) > 3 * ds or nabs(b[-1, 0] - ds * g['x1']) > 3 * ds:
             ctx.violation('end-points-match', f'{K}/end-points',
                           f'{desc}: baseline runs from x={b[0, 0]} to x={b[-1, 0]}, ridge from {ds * g["x0"]} to {ds * g["x1"]} (tolerance {3 * ds})', case)
             return False
         err = max(abs(p[1] - ds * y_at(p[0] / ds)) for p in b)
-        if err > tol_y + abs(g['slope']) * 3 * ds:
+        if err > tol_y + nabs(g['slope']) * 3 * ds:
             ctx.violation('vertical-position-matches', f'{K}/vertical-position',
                           f'{desc}: baseline {b.tolist()} is {err:.2f} px away from the ridge row {g["row"]}*{ds} (tolerance {tol_y})', case)
             return False
         if np.any(np.diff(b[:, 0]) <= 0) or len(b) < 2:
             ctx.violation('end-points-match', f'{K}/baseline-not-left-to-right', f'{desc}: {b.tolist()}', case)
             return False
-        if abs(h[0] - ds * g['h'][0]) > 1e-4 * ds or abs(h[1] - ds * g['h'][1]) > 1e-4 * ds:
+        if nabs(h[0] - ds * g['h'][0]) > 1e-4 * ds or nabs(h[1] - ds * g['h'][1]) > 1e-4 * ds:
             ctx.violation('heights-match', f'{K}/heights', f'{desc}: heights {list(h)}, map values x ds = {[ds * g["h"][0], ds * g["h"][1]]}', case)
             return False
         want = ref_outline(b, h)
-        if t.shape != want.shape or np.abs(t - want).max() > 1e-2:
+        if t.shape != want.shape or nmax(np.abs(t - want)) > 1e-2:
             ctx.violation('outline-from-baseline-and-heights', f'{K}/outline',
                           f'{desc}: outline {t.round(2).tolist()} is not the band of ascender {h[0]} above / descender {h[1]} below the baseline '
                           f'{b.tolist()} (expected {want.round(2).tolist()})', case)
@@ -370,17 +383,17 @@ def check_adaptive(case, ctx):
         if rot:
             b = np.stack([b[:, 1], Hr - b[:, 0]], axis=1)        # back into the rotated frame (within a pixel)
         tol = 3 * 8 + 2
-        if abs(b[0, 0] - x0) > tol or abs(b[-1, 0] - x1) > tol or np.abs(b[:, 1] - y).max() > 2 * 8 + 2:
+        if nabs(b[0, 0] - x0) > tol or nabs(b[-1, 0] - x1) > tol or nmax(np.abs(b[:, 1] - y)) > 2 * 8 + 2:
             ctx.violation('end-points-match', f'{K}/coordinates-off',
                           f'{desc}: baseline {b.round(1).tolist()} should run from ({x0},{y}) to ({x1},{y}) (tolerance {tol} px)')
             return
-        if abs(h[0] - asc) > 0.15 * asc + 8 or abs(h[1] - dsc) > 0.15 * dsc + 8:
+        if nabs(h[0] - asc) > 0.15 * asc + 8 or nabs(h[1] - dsc) > 0.15 * dsc + 8:
             ctx.violation('heights-match', f'{K}/heights-off', f'{desc}: heights {list(map(float, h))}, painted ({asc}, {dsc})')
             return
     ctx.outcome(('adaptive', round(float(getattr(eng.parsenet, 'last_downsample', 0)), 2)))
     if len(hist) > 1 and hist[-1] != hist[-2]:
         ctx.nontrivial(('adaptive', tuple(hist), rot), 'print-size-changes-between-pages')
-    if abs(float(getattr(eng.parsenet, 'last_downsample', 0)) - 4) > 1e-9:
+    if nabs(float(getattr(eng.parsenet, 'last_downsample', 0)) - 4) > 1e-9:
         ctx.tag('adaptive-factor-changed')
 
 
@@ -444,7 +457,7 @@ def check_rot(case, ctx):
         for g, r in zip(got, ref):
             want = inverse_rot90(r, k, img_r.shape)
             g = np.asarray(g, dtype=float)
-            if g.shape != want.shape or np.abs(g - want).max() > 1.0 + 1e-3:      # outlines are float32
+            if g.shape != want.shape or nmax(np.abs(g - want)) > 1.0 + 1e-3:      # outlines are float32
                 off = float(np.abs(g - want).max()) if g.shape == want.shape else None
                 ctx.violation('rotated-pass-in-original-coordinates', f'{K}/{name}-not-in-original-coordinates',
                               f'{desc}: {name} {g.round(1).tolist()} should be {want.round(1).tolist()} in the un-rotated page (max offset {off})', case)
@@ -546,7 +559,7 @@ def check_rotseq(case, ctx):
             for g, r in zip(got, ref):
                 want = inverse_rot90(r, k, turned.shape)
                 g = np.asarray(g, dtype=float)
-                if g.shape != want.shape or np.abs(g - want).max() > 1.0 + 1e-3:
+                if g.shape != want.shape or nmax(np.abs(g - want)) > 1.0 + 1e-3:
                     off = float(np.abs(g - want).max()) if g.shape == want.shape else None
                     ctx.violation('rotated-pass-in-original-coordinates', f'{K}/{name}-not-in-original-coordinates',
                                   f'{desc}: pass {k}: {name} {g.round(1).tolist()} should be {want.round(1).tolist()} (max offset {off})', case)
@@ -614,15 +627,15 @@ def close_result(r1, r2, tol=7.0):
         return False
     for x, y in zip(b1, b2):
         x, y = np.asarray(x, dtype=float), np.asarray(y, dtype=float)
-        if np.abs(x[0] - y[0]).max() > tol or np.abs(x[-1] - y[-1]).max() > tol:
+        if nmax(np.abs(x[0] - y[0])) > tol or nmax(np.abs(x[-1] - y[-1])) > tol:
             return False
     for x, y in zip(h1, h2):
-        if any(abs(float(a) - float(b)) > 0.25 * abs(float(a)) + 2 for a, b in zip(x, y)):
+        if any(nabs(float(a) - float(b)) > 0.25 * nabs(float(a)) + 2 for a, b in zip(x, y)):
             return False
     for x, y in zip(list(t1) + list(p1), list(t2) + list(p2)):
         x, y = np.asarray(x, dtype=float), np.asarray(y, dtype=float)
-        if abs(x[:, 0].min() - y[:, 0].min()) > 2 * tol or abs(x[:, 0].max() - y[:, 0].max()) > 2 * tol or \
-                abs(x[:, 1].min() - y[:, 1].min()) > 2 * tol or abs(x[:, 1].max() - y[:, 1].max()) > 2 * tol:
+        if nabs(x[:, 0].min() - y[:, 0].min()) > 2 * tol or nabs(x[:, 0].max() - y[:, 0].max()) > 2 * tol or \
+                nabs(x[:, 1].min() - y[:, 1].min()) > 2 * tol or nabs(x[:, 1].max() - y[:, 1].max()) > 2 * tol:
             return False
     return True
 
@@ -664,7 +677,7 @@ def check_skew(case, ctx):
     if check_lines(first[0], first[1], first[2], ridges, ds, ctx, f'{ID}/parse/skewed-page', desc, case):
         ctx.outcome(('skew', len(first[0])))
         ctx.nontrivial(('skew', case['skew'], n, ds), 'several-ridges')
-        if abs(sl) * 410 > 15:
+        if nabs(sl) * 410 > 15:
             ctx.tag('skewed-page-neighbouring-ridges-overlap-in-rows')
 
 
